@@ -1913,6 +1913,13 @@ func (sc *serverConn) newWriterAndRequest(st *stream, f *MetaHeadersFrame) (*res
 		return nil, nil, StreamError{f.StreamID, ErrCodeProtocol, errMsg}
 	}
 
+	if !validMethod(method) || (!isConnect && !validPseudoPath(path)) {
+		// The method and path are forwarded on the request line of a
+		// HTTP/1.x message, where SP delimits them.
+		errMsg := fmt.Sprintf("invalid request(method %q, path %q)", method, path)
+		return nil, nil, StreamError{f.StreamID, ErrCodeProtocol, errMsg}
+	}
+
 	bodyOpen := !f.StreamEnded()
 	if method == "HEAD" && bodyOpen {
 		// HEAD requests can't have bodies
